@@ -3,6 +3,55 @@ from lib import spec as S
 from lib.sut import CasadiEngine, cs, np
 
 
+class Stepped:
+    """A network stepped symbolically with a CasADi engine; to_function can be called repeatedly."""
+
+    def __init__(self, spec, sym="SX", opts=(), overrides=None, par_overrides=None, built=None, init=None):
+        self.spec = spec
+        self.net, self.els, self.nodes = built or S.build(spec, overrides)
+        self.eng = CasadiEngine(sym)
+        self.pars = S.pars_kwargs(spec)
+        if par_overrides:
+            self.pars.update(par_overrides)
+        self.held = {}
+        ic = None
+        if init:
+            # caller-held symbols for a drawn subset of variables, in a drawn key order: init = [[id, [vars...]], ...]
+            XX = self.eng.sym_type
+            nm = names_by_id(spec)
+            ic = {}
+            sizes = var_sizes(spec)
+            for i, vars_ in init:
+                d = {}
+                for var in vars_:
+                    x = XX.sym(f"{var}_{nm[i]}", sizes[(i, var)], 1)
+                    d[var] = x
+                    self.held[(i, var)] = x
+                ic[self.els[i]] = d
+        self.net.step(init_conditions=ic, engine=self.eng, **S.opts_kwargs(opts), **self.pars)
+
+    def to_function(self, compact=0, more_out=False, parameters=None):
+        # a parameter declared under a key that is also a model-parameter name (e.g. "T") is forwarded by
+        # to_function itself; passing it twice is a caller error, not a property of the library
+        others = {k: v for k, v in self.pars.items() if not (parameters and k in parameters)}
+        return self.eng.to_function(self.net, compact=compact, more_out=more_out, parameters=parameters, **others)
+
+
+def var_sizes(spec):
+    out = {}
+    for l in spec["links"]:
+        out[(l["id"], "rho")] = out[(l["id"], "v")] = l["N"]
+        if l.get("vsl") is not None:
+            out[(l["id"], "v_ctrl")] = len(l["vsl"])
+    for o in spec["origins"]:
+        if o["kind"] != "ideal":
+            for v in ("w", "d", "v_ctrl", "r", "q"):
+                out[(o["id"], v)] = 1
+    for d in spec["dests"]:
+        out[(d["id"], "d")] = 1
+    return out
+
+
 def compile_net(
     spec,
     sym="SX",
@@ -13,20 +62,13 @@ def compile_net(
     par_overrides=None,
     parameters=None,
     built=None,
+    init=None,
 ):
-    """Builds a fresh network, steps it with a CasADi engine creating its own symbols, compiles.
-    Returns (F, net, els)."""
-    net, els, nodes = built or S.build(spec, overrides)
-    eng = CasadiEngine(sym)
-    pars = S.pars_kwargs(spec)
-    if par_overrides:
-        pars.update(par_overrides)
-    net.step(engine=eng, **S.opts_kwargs(opts), **pars)
-    # a parameter declared under a key that is also a model-parameter name (e.g. "T") is forwarded by
-    # to_function itself; passing it twice is a caller error, not a property of the library
-    others = {k: v for k, v in pars.items() if not (parameters and k in parameters)}
-    F = eng.to_function(net, compact=compact, more_out=more_out, parameters=parameters, **others)
-    return F, net, els
+    """Builds a fresh network, steps it with a CasADi engine (engine-created symbols, or caller-held
+    symbols for the variables listed in `init`), compiles.  Returns (F, net, els)."""
+    st = Stepped(spec, sym, opts, overrides, par_overrides, built, init)
+    F = st.to_function(compact, more_out, parameters)
+    return F, st.net, st.els
 
 
 def names_by_id(spec):
